@@ -248,6 +248,18 @@ func runC10(c *Ctx) {
 			c.Pass(key, fn.Pos(), "copied")
 		}
 	}
+	// each field is copied from the SAME field of the source
+	for _, sp := range specs {
+		fn := w.Fn(sp.pkg, sp.recv, sp.fn)
+		T := w.Named(sp.pkg, sp.typ)
+		for _, m := range wrongSourceFields(w, fn, T) {
+			if _, ex := sp.exclude[m.field]; ex {
+				continue
+			}
+			c.Fail(fname(fn)+"#"+m.field+"-copied-from-"+m.from, m.pos, "field "+sp.typ+"."+m.field+" of the copy is computed from the source's "+m.from+" and not from its "+m.field+": the copy is not equal to the original")
+		}
+		c.Pass(fname(fn)+"#fields-copied-from-same-field", fn.Pos(), "every directly assigned field that reads the source reads the same field")
+	}
 	// balances are never mutated in place (the Account struct is copied by value)
 	c10NoInPlaceBalance(c, w)
 
@@ -423,8 +435,162 @@ func c10Variants() []Variant {
 		{Name: "copy-without-refund", File: "core/state/statedb.go", Old: "		refund:           st.refund,\n", New: "", Rule: "C10.K1", Construct: "Copy#refund"},
 		{Name: "copy-without-pending-relationships", File: "core/state/statedb.go", Old: "		pendingRelats:       st.pendingRelats.DeepCopy(),\n", New: "		pendingRelats:       st.pendingRelats,\n", Rule: "C10.K1", Construct: "Copy#pendingRelats"},
 		{Name: "deepcopy-drops-dirty-flag", File: "core/state/state_object.go", Old: "	stateObject.dirtyDlgs = so.dirtyDlgs\n", New: "", Rule: "C10.K1", Construct: "deepCopy#dirtyDlgs"},
+		{Name: "suicided-from-deleted", File: "core/state/state_object.go", Old: "	stateObject.suicided = so.suicided\n", New: "	stateObject.suicided = so.deleted\n", Rule: "C10.K1", Construct: "suicided-copied-from-deleted"},
 		{Name: "in-place-balance", File: "core/state/state_object.go", Old: "	so.SetBalance(new(big.Int).Sub(so.Balance(), amount))", New: "	so.SetBalance(so.Balance().Sub(so.Balance(), amount))", Rule: "C10.K1", Construct: "in-place-balance"},
 		{Name: "staking-trie-not-committed", File: "core/state/statedb.go", Old: "	stakingRoot, err = st.stakingTrie.Commit(nil)\n", New: "	stakingRoot = st.stakingTrie.Hash()\n", Rule: "C10.K2", Construct: "stakingTrie"},
 		{Name: "delegations-blob-not-referenced", File: "core/state/statedb.go", Old: "			st.db.TrieDB().Reference(dhash, parent)\n", New: "			_ = dhash\n", Rule: "C10.K4", Construct: "leaf-references"},
 	}
+}
+
+type wrongSource struct {
+	field, from string
+	pos          token.Pos
+}
+
+// wrongSourceFields: for every field f of T that fn assigns on the copy — by a
+// store, by new.f.Set(x), or through a constructor parameter that the
+// constructor stores into f — the source fields of T that the assigned value
+// reads (other than through len/cap) must include f itself.
+func wrongSourceFields(w *World, fn *ssa.Function, T *types.Named) []wrongSource {
+	st := T.Underlying().(*types.Struct)
+	isT := func(t types.Type) bool {
+		if p, ok := t.Underlying().(*types.Pointer); ok {
+			t = p.Elem()
+		}
+		return types.Identical(t, T)
+	}
+	srcFields := func(v ssa.Value) map[string]bool {
+		out := map[string]bool{}
+		seen := map[ssa.Value]bool{}
+		var walk func(v ssa.Value)
+		walk = func(v ssa.Value) {
+			if v == nil || seen[v] {
+				return
+			}
+			seen[v] = true
+			if cc, ok := v.(*ssa.Call); ok {
+				if b, isB := cc.Call.Value.(*ssa.Builtin); isB && (b.Name() == "len" || b.Name() == "cap") {
+					return
+				}
+			}
+			if f, base := loadedField(v); f != nil && ownerOfField(st, f) && sourceDerived(fn, base) {
+				out[f.Name()] = true
+				return
+			}
+			if fa, ok := v.(*ssa.FieldAddr); ok && ownerOfField(st, fieldOfAddr(fa)) && sourceDerived(fn, fa.X) {
+				out[fieldOfAddr(fa).Name()] = true
+				return
+			}
+			if fv, ok := v.(*ssa.Field); ok {
+				if f := structField(fv.X.Type(), fv.Field); f != nil && ownerOfField(st, f) && sourceDerived(fn, fv.X) {
+					out[f.Name()] = true
+					return
+				}
+			}
+			if in, ok := v.(ssa.Instruction); ok {
+				for _, op := range in.Operands(nil) {
+					if op != nil && *op != nil {
+						walk(*op)
+					}
+				}
+			}
+		}
+		walk(v)
+		return out
+	}
+	var out []wrongSource
+	judge := func(field string, val ssa.Value, pos token.Pos) {
+		got := srcFields(val)
+		if len(got) == 0 || got[field] {
+			return
+		}
+		var from []string
+		for k := range got {
+			from = append(from, k)
+		}
+		sort.Strings(from)
+		out = append(out, wrongSource{field, strings.Join(from, "+"), pos})
+	}
+	judgeAll := func(field string, vals []ssa.Value, pos token.Pos) {
+		got := map[string]bool{}
+		for _, v := range vals {
+			for k := range srcFields(v) {
+				got[k] = true
+			}
+		}
+		if len(got) == 0 || got[field] {
+			return
+		}
+		var from []string
+		for k := range got {
+			from = append(from, k)
+		}
+		sort.Strings(from)
+		out = append(out, wrongSource{field, strings.Join(from, "+"), pos})
+	}
+	direct := map[string]bool{}
+	for _, b := range fn.Blocks {
+		for _, in := range b.Instrs {
+			switch x := in.(type) {
+			case *ssa.Store:
+				if fa, ok := x.Addr.(*ssa.FieldAddr); ok && isT(fa.X.Type()) && !sourceDerived(fn, fa.X) {
+					f := fieldOfAddr(fa)
+					if ownerOfField(st, f) {
+						direct[f.Name()] = true
+						judge(f.Name(), x.Val, x.Pos())
+					}
+				}
+			case *ssa.Call:
+				// new.f.Set(x)
+				if o := calleeObj(x); o != nil && (o.Name() == "Set" || o.Name() == "Store") {
+					if r := callRecv(x); r != nil {
+						if f, base := loadedField(stripConv(r)); f != nil && ownerOfField(st, f) && isT(base.Type()) && !sourceDerived(fn, base) {
+							direct[f.Name()] = true
+							judgeAll(f.Name(), callArgs(x), x.Pos())
+						}
+						if fa, ok := r.(*ssa.FieldAddr); ok && ownerOfField(st, fieldOfAddr(fa)) && isT(fa.X.Type()) && !sourceDerived(fn, fa.X) {
+							direct[fieldOfAddr(fa).Name()] = true
+							judgeAll(fieldOfAddr(fa).Name(), callArgs(x), x.Pos())
+						}
+					}
+				}
+			}
+		}
+	}
+	// constructor parameters
+	for _, ci := range callInstrs(fn) {
+		callee := ci.Common().StaticCallee()
+		if callee == nil || callee.Blocks == nil || callee.Signature.Recv() != nil {
+			continue
+		}
+		res := callee.Signature.Results()
+		if res.Len() < 1 || !isT(res.At(0).Type()) {
+			continue
+		}
+		for _, b := range callee.Blocks {
+			for _, in := range b.Instrs {
+				stt, ok := in.(*ssa.Store)
+				if !ok {
+					continue
+				}
+				fa, ok := stt.Addr.(*ssa.FieldAddr)
+				if !ok || !isT(fa.X.Type()) || !ownerOfField(st, fieldOfAddr(fa)) {
+					continue
+				}
+				f := fieldOfAddr(fa).Name()
+				if direct[f] {
+					continue // overridden in the copy function itself
+				}
+				// which parameter does the stored value come from?
+				for i, p := range callee.Params {
+					if derivesFrom(stt.Val, func(v ssa.Value) bool { return v == ssa.Value(p) }) || callChainMentionsValue(stt.Val, func(v ssa.Value) bool { return v == ssa.Value(p) }) {
+						if i < len(ci.Common().Args) {
+							judge(f, ci.Common().Args[i], ci.Pos())
+						}
+					}
+				}
+			}
+		}
+	}
+	return out
 }
